@@ -107,7 +107,7 @@ def mutation_family(v: Verdict, tier: str, seed: int):
             texts = sorted({chars(st["text"]) for st in tlaval.iter_dump_states(res.dump_path)})
         finally:
             cleanup(res)
-        seeds_ += rng.sample(texts, min(len(texts), {"quick": 4, "thorough": 60}[tier]))
+        seeds_ += rng.sample(texts, min(len(texts), {"quick": 4, "thorough": 12}[tier]))
     muts = sorted({m for t in seeds_ for m in mutations(t, rng, tier == "thorough")})
     if tier == "quick" and len(muts) > 8000:
         muts = rng.sample(muts, 8000)
